@@ -44,6 +44,36 @@ def corpus_nodes(name):
     raise KeyError(name)
 
 
+def per_item_corpus():
+    """Exhaustive small cases: a repeat together with content / replace / attributes / omit-tag on the SAME
+    element, over every sequence of three items whose key is a real value (V), `nothing` (N) or absent so that
+    the expression falls through to `default` (D) — all 27 orders, plus a nested repeat."""
+    import itertools
+    E, T = talgen.Elem, talgen.Text
+    item = {"V": ["d", [["t", ["s", "v<1>"]]]], "N": ["d", [["t", ["z"]]]], "D": ["d", []]}
+    shapes = [
+        ("content", lambda: E("li", tal={"repeat": "f m", "content": "f/t | default"}, children=[T("(untitled)"), E("b", children=[T("x")])])),
+        ("replace", lambda: E("li", tal={"repeat": "f m", "replace": "f/t | default"}, children=[T("(untitled)")])),
+        ("structure", lambda: E("li", tal={"repeat": "f m", "content": "structure f/t | default"}, children=[E("i", children=[T("none")])])),
+        ("attributes", lambda: E("li", attrs=[("title", "orig"), ("id", "i")],
+                                tal={"repeat": "f m", "attributes": "title f/t | default; id f/t | nothing"}, children=[T("x")])),
+        ("omit-tag", lambda: E("li", tal={"repeat": "f m", "omit-tag": "f/t | nothing"}, children=[T("x")])),
+        ("all", lambda: E("li", attrs=[("title", "orig")],
+                         tal={"repeat": "f m", "content": "f/t | default", "attributes": "title f/t | default",
+                              "omit-tag": "f/t | nothing"}, children=[T("(untitled)")])),
+    ]
+    out = []
+    for order in itertools.product("VND", repeat=3):
+        ctx = {"m": ["l", [item[o] for o in order]]}
+        for name, mk in shapes:
+            out.append(("per-item-%s-%s" % (name, "".join(order)), [E("ul", children=[mk()])], ctx))
+    groups = ["l", [["l", [item["V"], item["D"]]], ["l", [item["D"], item["V"]]], ["l", [item["N"], item["D"], item["V"]]]]]
+    out.append(("per-item-nested", [E("dl", tal={"repeat": "g groups"},
+                                      children=[E("dt", tal={"repeat": "f g", "content": "f/t | default"}, children=[T("?")])])],
+                {"groups": groups}))
+    return out
+
+
 def classify(case, nodes, lib_nodes, r):
     """Compare the real expansion with the reference evaluator.
     Returns (status, detail) with status in match | cosmetic | out_of_scope | compile_error |
@@ -94,7 +124,12 @@ def run(tier):
         cases.append({"id": len(cases), "main": src, "lib": None, "ctx": ctx, "options": tc.OPTIONS_SPEC,
                       "allow_python": 0, "want": ["prog", "snap", "trace", "events"], "corpus": name})
         trees.append((nodes, None))
-    while len(cases) < n_templates + len(CORPUS):
+    for name, nodes, ctx in per_item_corpus():
+        cases.append({"id": len(cases), "main": talgen.serialize(nodes), "lib": None, "ctx": ctx, "options": tc.OPTIONS_SPEC,
+                      "allow_python": 0, "want": ["prog", "trace", "events"], "corpus": name})
+        trees.append((nodes, None))
+    n_corpus = len(cases)
+    while len(cases) < n_templates + n_corpus:
         i = len(cases)
         want = ["prog", "events"]
         if i % 4 == 0:
